@@ -781,11 +781,19 @@ evaluate() const {
     case '/':
       if (r1._type == RT_real || r2._type == RT_real) {
         return Result(r1.as_real() / r2.as_real());
+      } else if (r2.as_integer() == 0 ||
+                 (r2.as_integer() == -1 && r1.as_integer() == INT_MIN)) {
+        // There is no value (and the division would raise SIGFPE).
+        return Result();
       } else {
         return Result(r1.as_integer() / r2.as_integer());
       }
 
     case '%':
+      if (r2.as_integer() == 0 ||
+          (r2.as_integer() == -1 && r1.as_integer() == INT_MIN)) {
+        return Result();
+      }
       return Result(r1.as_integer() % r2.as_integer());
 
     case '+':
